@@ -116,6 +116,19 @@ def generate(rng, tier):
                 if fam == "sub" and lk == "U" and rk == "U" and a < b:
                     a, b = b, a
                 yield Case("form", [fam, lk, rk, hx(a), hx(b)])
+    # clone_from with buffer REUSE: destination and source both on the heap with compatible sizes, every sign
+    # combination (the sign lives in the capacity field and must be re-derived when the buffer is reused)
+    for n in ([3, 4, 5, 8, 20] if tier == "quick" else [3, 4, 5, 6, 7, 8, 12, 20, 33, 100]):
+        for dn in (0, 1, -1, 2):
+            if n + dn < 3:
+                continue
+            for sa in (1, -1):
+                for sb in (1, -1):
+                    a = nat_pattern(rng, n, rng.choice(["random", "ones", "highbit"]))
+                    b = nat_pattern(rng, n + dn, rng.choice(["random", "ones", "highbit"]))
+                    yield Case("clone.i", [hx(sa * a), hx(sb * b)])
+            a = nat_pattern(rng, n, "random"); b = nat_pattern(rng, n + dn, "random")
+            yield Case("clone.u", [hx(a), hx(b)])
     m = 60 if tier == "quick" else 1500
     for _ in range(m):
         a = nat_pattern(rng, rng.choice([0, 1, 2, 3, 4, 9, 40]), rng.choice(PATTERNS))
